@@ -59,8 +59,8 @@ PROP = {
         job("obfs", "extras", "./obfs/", "obfs", _files("extras/obfs", "c03_obfs_test.go"),
             "^TestVerifC03", ["obfs-salamander", "obfs-gecko"], race=True,
             timeout_quick=600, timeout_thorough=3600),
-        job("realm", "extras", "./realm/", "realm", _files("extras/realm", "c03_realm_test.go"),
-            "^TestVerifC03", ["realm-punch", "realm-stun", "realm-conn"], race=True,
+        job("realm", "extras", "./realm/", "realm", _files("extras/realm", "c03_realm_test.go", "c03_demux_test.go"),
+            "^TestVerifC03", ["realm-punch", "realm-stun", "realm-conn", "realm-demux"], race=True,
             timeout_quick=600, timeout_thorough=3600),
         job("speedtest", "extras", "./outbounds/speedtest/", "speedtest", _files("extras/outbounds/speedtest", "c03_speedtest_test.go"),
             "^TestVerifC03", ["spd-server", "spd-pipe", "spd-client"], race=False,
@@ -80,7 +80,7 @@ PROP = {
               "FuzzVerifC03SnifferTCP", "fuzz-sniff-tcp"),
         _fuzz("fuzz-obfs-gecko", "extras", "./obfs/", "obfs", "extras/obfs", ["c03_obfs_test.go"],
               "FuzzVerifC03GeckoFrame", "fuzz-obfs-gecko"),
-        _fuzz("fuzz-realm", "extras", "./realm/", "realm", "extras/realm", ["c03_realm_test.go"],
+        _fuzz("fuzz-realm", "extras", "./realm/", "realm", "extras/realm", ["c03_realm_test.go", "c03_demux_test.go"],
               "FuzzVerifC03RealmPackets", "fuzz-realm"),
     ],
     "min_events": 150000,
@@ -100,7 +100,10 @@ PROP = {
              "flood for a session (backlog empty/almost full/full/overfull) while the application closes/reopens that session "
              "(client feed and run(); the closer acts when the receive path is parked in a synctest bubble, and free-running "
              "under -race), and the client's datagrams while the server session is closed by a socket error, a failing reply "
-             "or the idle sweeper (datagrams timed onto the sweeper's instants in a bubble). Oracle: no panic (recover in the calling goroutine -> "
+             "or the idle sweeper (datagrams timed onto the sweeper's instants in a bubble); (g) leftovers: STUN-looking datagrams "
+             "(magic cookie; truncated/oversize/inconsistent lengths, cut or bad attributes, other message types, mutated genuine "
+             "responses, also with the pending transaction id) through the real PunchPacketConn.ReadFrom reader before and while "
+             "DiscoverWithDemux / Discover run, one synctest bubble per case, then a clean discovery that must return the right address. Oracle: no panic (recover in the calling goroutine -> "
              "key '<entry>-panic'; panic elsewhere / fatal error / checkptr kills the child -> key 'crash:...'), and after hostile "
              "input the same object processes a well-formed input correctly ('<entry>-service-stops'). Distinct & non-trivial = "
              "distinct (entry point, input bytes) executed; ev_accepted/ev_rejected and ev_canary_ok show that both the accepting "
